@@ -53,7 +53,7 @@ theorem xeval_2_infinity (K Q : EcPoint F) (h : Q.z = 0) : (xeval_2_pt Q (xisog_
 theorem xeval_2_zero (K Q : EcPoint F) (h : Q.x = 0) : (xeval_2_pt Q (xisog_2 K).1).x = 0 := by
   simp only [xeval_2_pt, xisog_2, h]; ring
 
-theorem four_ne_zero' (h2 : (2 : F) ≠ 0) : (4 : F) ≠ 0 := by
+theorem four_ne_zero_of_two (h2 : (2 : F) ≠ 0) : (4 : F) ≠ 0 := by
   have : (4 : F) = 2 * 2 := by norm_num
   rw [this]; exact mul_ne_zero h2 h2
 
@@ -61,7 +61,7 @@ theorem four_ne_zero' (h2 : (2 : F) ≠ 0) : (4 : F) ≠ 0 := by
 theorem xeval_2_dbl_commute (K Q A24 : EcPoint F) (hK : ord2 K A24 = 0) (h2 : (2 : F) ≠ 0) (hx : K.x ≠ 0) (hz : K.z ≠ 0) :
     cross (xeval_2_pt (xDBL_A24 Q A24) (xisog_2 K).1) (xDBL_A24 (xeval_2_pt Q (xisog_2 K).1) (xisog_2 K).2) = 0 :=
   (mul_eq_zero.mp (xeval_2_dbl K Q A24 hK)).resolve_right
-    (pow_ne_zero _ (mul_ne_zero (mul_ne_zero (four_ne_zero' h2) hx) hz))
+    (pow_ne_zero _ (mul_ne_zero (mul_ne_zero (four_ne_zero_of_two h2) hx) hz))
 
 /-- φ(xADD(P,Q,D)) = xADD'(φP,φQ,φD) when D = x(P−Q), and φ(D) is again the difference of φP, φQ on E' -/
 theorem xeval_2_add_commute (K P Q D A24 : EcPoint F) (hK : ord2 K A24 = 0) (hD : biquad P Q D A24 = 0) (ha : A24.z ≠ 0) :
@@ -103,7 +103,7 @@ theorem xisog_2_is_isogeny_formulas (K A24 : EcPoint F) (hK : ord2 K A24 = 0) (h
   have h := xeval_2_on_curve K A24 x y Bc hK hc
   have hne : (4 * K.x * K.z) ^ 1 * (Bc * A24.z) ^ 1 ≠ 0 := by
     simp only [pow_one]
-    exact mul_ne_zero (mul_ne_zero (mul_ne_zero (four_ne_zero' h2) hx) hz) (mul_ne_zero hB ha)
+    exact mul_ne_zero (mul_ne_zero (mul_ne_zero (four_ne_zero_of_two h2) hx) hz) (mul_ne_zero hB ha)
   exact sub_eq_zero.mp ((mul_eq_zero.mp h).resolve_right hne)
 
 
